@@ -20,7 +20,7 @@ def parse(name):
         return res
     cur = None
     for ln in open(p):
-        m = re.match(r"== ([CEF]\d+-[A-Z])", ln)
+        m = re.match(r"== ([CEFG]\d+-[A-Z])", ln)
         if m:
             cur = m.group(1)
             res.setdefault(cur, {})
@@ -37,11 +37,13 @@ for k, v in parse("matrix_r4.txt").items():
     final[k] = v
 for k, v in parse("matrix_r5.txt").items():
     final[k] = v
-for name in ("matrix_fix.txt", "matrix_fix5.txt"):
+for k, v in parse("matrix_r6.txt").items():
+    final[k] = v
+for name in ("matrix_fix.txt", "matrix_fix5.txt", "matrix_fix6.txt"):
     for k, v in parse(name).items():
         final.setdefault(k, {}).update(v)
 first = {}
-for name in ("matrix3.txt", "matrix4.txt", "matrix_r4.txt", "matrix_r5.txt"):
+for name in ("matrix3.txt", "matrix4.txt", "matrix_r4.txt", "matrix_r5.txt", "matrix_r6.txt"):
     for k, v in parse(name).items():
         first[k] = v
 summ = json.load(open(os.path.join(V, "seeded", "summaries.json")))
@@ -53,10 +55,10 @@ for d in sorted(os.listdir(os.path.join(V, "seeded"))):
     mp = os.path.join(dd, "meta.json")
     meta = json.load(open(mp)) if os.path.exists(mp) else {}
     notes = open(os.path.join(dd, "author_notes.md")).read() if os.path.exists(os.path.join(dd, "author_notes.md")) else ""
-    if d.startswith("E"):
+    if d.startswith("E") or d.startswith("G"):
         m = re.search(r"PROPERTY:\s*(C\d+)", notes)
         prop = m.group(1) if m else "?"
-        rnd = 4
+        rnd = 4 if d.startswith("E") else 6
     elif d.startswith("F"):
         prop = "C" + d[1:3]
         rnd = 5
@@ -76,6 +78,7 @@ for d in sorted(os.listdir(os.path.join(V, "seeded"))):
     r = final.get(d, {})
     meta["detected_by"] = sorted(c for c, (rc, _) in r.items() if rc == 1)
     meta["missed_by"] = sorted(c for c, (rc, _) in r.items() if rc != 1)
+    meta["detected_by_own_property"] = prop in meta["detected_by"]
     meta["first_laws"] = {c: l for c, (rc, l) in r.items() if rc == 1}
     f = first.get(d)
     if f is not None:
@@ -99,6 +102,6 @@ with open(os.path.join(V, "seeded", "README.md"), "w") as f:
         f.write("| %s | %s | %s | %s | %s | %s |\n" % (m["id"], m["property"], m.get("breaks", ""), ", ".join(m["detected_by"]) or "—", ls,
                                                     m.get("first_run_before_strengthening", "")))
     n = len(rows)
-    k = sum(1 for m in rows if m["detected_by"])
+    k = sum(1 for m in rows if m.get("detected_by_own_property"))
     f.write("\n%d of %d seeded changes are detected by the quick check of their own property.\n" % (k, n))
 print("ok", len(rows))
